@@ -319,6 +319,18 @@ class Recorder:
 
 
 
+def bpseq(it: Interp, ents: Sequence[Any], over: Optional[Dict[str, Any]] = None, extra: Optional[Dict[str, Any]] = None) -> Instance:
+    """A BpSeq stand-in made the way the class makes its objects: the entries, then the class's own __post_init__ (interpreted),
+    so that whatever state the initialiser sets up (pairs, hand-written caches ...) is there."""
+    inst = it.instance(CLS, attrs={"entries": ents, **(extra or {})}, over=over)
+    if it._find_member(MOD, CLS, "__post_init__") is not None:
+        try:
+            it.call_member(inst, "__post_init__")
+        except (ProgramError, StepLimit) as ex:
+            raise NotEvaluable(f"BpSeq.__post_init__ does not accept the stand-in object: {ex}")
+    return inst
+
+
 class SkipCase(NotEvaluable):
     """This input cannot be presented to the current code consistently (see receiver)."""
 
@@ -357,7 +369,7 @@ def receiver(it: Interp, regions: Sequence[Region], rec: Recorder, **over: Any) 
         rec.by_structure.setdefault(rec.fcfs_token.structure, rec.fcfs_token)
         ov["fcfs"] = rec.fcfs_token
     ov.update(over)
-    return it.instance(CLS, attrs={"entries": ents, "pairs": pairs}, over=ov)
+    return bpseq(it, ents, ov)
 
 
 _LOOPS = [0]
@@ -381,8 +393,17 @@ def site_of(fi: FuncInfo, lineno: Optional[int]) -> str:
     return f"{fi.module.relpath}:{lineno} {fi.qualname}" if lineno else fi.where
 
 
-def early_exits(fn: ast.AST) -> str:
-    """Hint for messages: break/continue/return statements that sit inside a loop of the function."""
+def _n_exits(fn: ast.AST) -> int:
+    return sum(1 for loop in ast.walk(fn) if isinstance(loop, (ast.For, ast.While)) for b in loop.body for n in ast.walk(b) if isinstance(n, (ast.Break, ast.Return)))
+
+
+def early_exits(fn: ast.AST, repo=None, qualname: Optional[str] = None) -> str:
+    """Hint for messages: break/return statements that sit inside a loop of the function - only when the function has more of
+    them than its copy in spec/reference (the hint is a pointer for the reader, never a verdict)."""
+    if repo is not None and qualname is not None:
+        ref = getattr(repo, "reference", {}).get(MOD)
+        if ref is not None and qualname in ref.funcs and _n_exits(ref.funcs[qualname].node) >= _n_exits(fn):
+            return ""
     out = []
     for loop in ast.walk(fn):
         if isinstance(loop, (ast.For, ast.While)):
@@ -528,7 +549,7 @@ def fcfs_fact(chk, n_levels: int = 30) -> Optional[str]:
                 if tok.levels is not None:
                     clash = [j for j in range(len(regs)) if j != bad and crosses(regs[bad], regs[j]) and tok.levels[j] == tok.levels[bad]]
                     why = f": stem #{bad} shares level {tok.levels[bad]} with the crossing stem #{clash[0]}" if clash else f": stem #{bad} is put on level {tok.levels[bad]} although level {want[bad]} is free"
-                problems.setdefault("levels", (fi.where, f"BpSeq.fcfs is not first-fit for the stems {show(regs)} ({relation_text(regs)}){why}{early_exits(fi.node)}", want, tok.levels or tok.note))
+                problems.setdefault("levels", (fi.where, f"BpSeq.fcfs is not first-fit for the stems {show(regs)} ({relation_text(regs)}){why}{early_exits(fi.node, repo, fi.qualname)}", want, tok.levels or tok.note))
     except NotEvaluable as ex:
         return str(ex)
     if not problems:
@@ -728,6 +749,7 @@ def enumeration_fact(chk) -> Optional[str]:
     chk.note_function(fi)
     it = Interp(repo, MOD)
     problems: Dict[str, Tuple[str, str, Any, Any]] = {}
+    failing_case: Optional[List[Region]] = None
     n_cases = n_knotted = 0
     cases = sorted_cases(4) + [[embed(m)[i] for i in p] for m in matchings(3) for p in ((2, 1, 0), (1, 2, 0))]
     try:
@@ -738,6 +760,9 @@ def enumeration_fact(chk) -> Optional[str]:
             except SkipCase:
                 continue
             n_cases += 1
+            if problems and failing_case is None:
+                failing_case = prev_case
+            prev_case = regs
             kind, val = attempt(lambda: it.call_member(recv, "all_dot_brackets"))
             rel = relation_text(regs)
             if kind == "raise":
@@ -773,7 +798,7 @@ def enumeration_fact(chk) -> Optional[str]:
             improper = [(lv, i, j) for lv in got for i in adj for j in adj[i] if i < j and lv[i] == lv[j]]
             if improper:
                 lv, i, j = improper[0]
-                problems.setdefault("improper", (fi.where, f"for the stems {show(regs)} ({rel}) the list contains the assignment {list(lv)} in which the crossing stems #{i} and #{j} share level {lv[i]} (a group of transitively crossing stems was split or a crossing was not seen){early_exits(fi.node)}", sorted(map(list, want)), sorted(map(list, set(got)))))
+                problems.setdefault("improper", (fi.where, f"for the stems {show(regs)} ({rel}) the list contains the assignment {list(lv)} in which the crossing stems #{i} and #{j} share level {lv[i]} (a group of transitively crossing stems was split or a crossing was not seen){early_exits(fi.node, repo, fi.qualname)}", sorted(map(list, want)), sorted(map(list, set(got)))))
                 continue
             unstable = [lv for lv in got if lv not in want]
             if unstable:
@@ -781,11 +806,13 @@ def enumeration_fact(chk) -> Optional[str]:
                 continue
             missing = sorted(want - set(got))
             if missing:
-                problems.setdefault("missing", (fi.where, f"for the stems {show(regs)} ({rel}) the greedy-stable assignment {list(missing[0])} is missing from the list ({len(set(got))} of {len(want)} found): not every order / combination is enumerated{early_exits(fi.node)}", sorted(map(list, want)), sorted(map(list, set(got)))))
+                problems.setdefault("missing", (fi.where, f"for the stems {show(regs)} ({rel}) the greedy-stable assignment {list(missing[0])} is missing from the list ({len(set(got))} of {len(want)} found): not every order / combination is enumerated{early_exits(fi.node, repo, fi.qualname)}", sorted(map(list, want)), sorted(map(list, set(got)))))
                 continue
             if len(got) != len(set(got)):
                 dup = next(lv for lv in got if got.count(lv) > 1)
                 problems.setdefault("repeat", (fi.where, f"for the stems {show(regs)} ({rel}) the notation with levels {list(dup)} occurs {got.count(dup)} times in the list: equal assignments reached through different orders are not merged", len(want), len(got)))
+        if problems and failing_case is None:
+            failing_case = prev_case
     except NotEvaluable as ex:
         return str(ex)
     if not problems:
@@ -793,10 +820,21 @@ def enumeration_fact(chk) -> Optional[str]:
         if gap:
             return gap
     hint = _structural_hint(chk, fi) if problems else ""
+    if problems and failing_case is not None:
+        try:  # does the same input come out right in a process of its own?
+            it2 = Interp(repo, MOD)
+            rec2 = Recorder()
+            k2, v2 = attempt(lambda: it2.call_member(receiver(it2, failing_case, rec2, fcfs=True), "all_dot_brackets"))
+            lv2 = sorted(tuple(rec2.levels_of(t) or ()) for t in v2) if k2 == "value" and isinstance(v2, (list, tuple)) else None
+            if lv2 is not None and adjacency(failing_case) and lv2 == sorted(grundy(failing_case)):
+                kept = sorted(nm for (mod, nm), val in it._consts.items() if mod == MOD and isinstance(val, (dict, list, set)) and len(val))
+                hint = f" - in a process of its own the same stems come out right: the answer depends on the structures enumerated earlier in the same process" + (f" (module-level state kept between calls: {', '.join('`' + k + '`' for k in kept)}; what identifies an entry there does not determine what is stored under it)" if kept else "") + hint
+        except (NotEvaluable, SkipCase):
+            pass
     for key, (site, msg, want, got) in problems.items():
         chk.violation("enumeration-fact", site, msg + hint, K(fi, f"enumeration-{key}"), expected=want, found=got)
     if not problems:
-        chk.ok("enumeration-fact", fi.where, f"evaluated on {n_cases} stem lists (every order type of <= 4 arcs, {n_knotted} knotted): the list is exactly the set of greedy-stable assignments, each once, rendered by the fill; pseudoknot-free -> [FCFS]")
+        chk.ok("enumeration-fact", fi.where, f"evaluated on {n_cases} stem lists (every order type of <= 4 arcs, {n_knotted} knotted; all in one process, so module-level state persists from case to case): the list is exactly the set of greedy-stable assignments, each once, rendered by the fill; pseudoknot-free -> [FCFS]")
     return None
 
 
@@ -869,7 +907,7 @@ def stems_fact(chk) -> Optional[str]:
                 _c.append((a, k))
                 return iter(list(_e))
 
-            recv = it.instance(CLS, attrs={"entries": list(ents)}, over={"paired": paired})
+            recv = bpseq(it, list(ents), {"paired": paired})
             kind, val = attempt(lambda: it.call_member(recv, "__stems_entries"))
             want = runs_of(seq)
             if kind != "value":
@@ -1063,7 +1101,7 @@ def isolated_fact(chk) -> Optional[str]:
             ents = entries_of(regs)
             pairs = {e.index_: e.pair for e in ents if e.pair}
             stems = [_NS(strand5p=_NS(first=s, last=s + L - 1), strand3p=_NS(first=e - L + 1, last=e)) for s, e, L in regs]
-            recv = it.instance(CLS, attrs={"entries": ents, "pairs": dict(pairs)}, over={"elements": (stems, [], [], []), "__stems_entries": stems_of(regs, ents), "__regions": [tuple(r) for r in regs]})
+            recv = bpseq(it, ents, {"elements": (stems, [], [], []), "__stems_entries": stems_of(regs, ents), "__regions": [tuple(r) for r in regs]})
             before = _snapshot(recv)
             kind, val = attempt(lambda: it.call_member(recv, "without_isolated"))
             desc = f"stems {[(s, e, L) for s, e, L in regs]} (start, partner, length)"
@@ -1143,7 +1181,11 @@ def pseudoknots_fact(chk) -> Optional[str]:
     try:
         dbc = it.class_ref("DotBracket")
         db = dbc(seq, structure)
-        recv = it.instance(CLS, attrs={"entries": [E(i + 1, c, 0) for i, c in enumerate(seq)]}, over={"dot_bracket": db})
+        pk_entries = [E(i + 1, c, 0) for i, c in enumerate(seq)]
+        for a, b in decode_ref(structure) or []:
+            pk_entries[a].pair, pk_entries[b].pair = b + 1, a + 1
+        recv = bpseq(it, pk_entries, {"dot_bracket": db})
+        before = _snapshot(recv)
         kind, val = attempt(lambda: it.call_member(recv, "without_pseudoknots"))
         if kind != "value":
             problems["raise"] = (site_of(fi, getattr(val, "lineno", None)), f"BpSeq.without_pseudoknots {'raises ' + str(val) if kind == 'raise' else 'does not finish'} on a notation using all {n_types} bracket types", None, None)
@@ -1159,6 +1201,10 @@ def pseudoknots_fact(chk) -> Optional[str]:
             elif got != want:
                 bad = next(i for i in range(len(want)) if got[i] != want[i])
                 problems["pairs"] = (dfi.where, f"without_pseudoknots: position {bad + 1} (`{structure[bad]}` in the notation) ends as {got[bad]}, expected {want[bad]}: exactly the pairs written with round brackets are kept", None, None)
+            if _snapshot(recv) != before:
+                after = _snapshot(recv)
+                changed = [a for a in before if after.get(a) != before[a]] + [a for a in after if a not in before]
+                problems["receiver-bpseq"] = (fi.where, f"BpSeq.without_pseudoknots changes the structure it is called on: `{changed[0]}` is {str(after.get(changed[0]))[:120]} afterwards (was {str(before.get(changed[0]))[:120]})", None, None)
             if db._attrs.get("structure") != structure or db._attrs.get("sequence") != seq:
                 problems["receiver"] = (dfi.where, "DotBracket.without_pseudoknots changes the notation it is called on", structure, db._attrs.get("structure"))
     except NotEvaluable as ex:
@@ -1167,7 +1213,7 @@ def pseudoknots_fact(chk) -> Optional[str]:
         gap = reached_all(repo, it.cov, [fi, dfi])
         if gap:
             return gap
-    rules = {"raise": "pk-class", "result": "pk-via-dotbracket", "sequence": "derived-sequence", "pairs": "pk-class", "receiver": "receiver-write"}
+    rules = {"raise": "pk-class", "result": "pk-via-dotbracket", "sequence": "derived-sequence", "pairs": "pk-class", "receiver": "receiver-write", "receiver-bpseq": "receiver-write"}
     for key, (site, msg, want, got) in problems.items():
         chk.violation(rules[key], site, msg, K(fi, f"pk-{key}"), expected=want, found=got)
     if not problems:
@@ -1367,7 +1413,10 @@ ENCODER_QUERIES = ("fcfs", "dot_bracket", "all_dot_brackets")
 OBJECT_QUERIES = ENCODER_QUERIES + ("elements", "without_isolated", "without_pseudoknots", "sequence", "attr:pairs", "attr:entries")
 
 
-def history_fact(chk, queries: Sequence[str] = ENCODER_QUERIES, rule: str = "history-independent", process: bool = False) -> Optional[str]:
+DERIVATIONS = ("without_isolated", "without_pseudoknots", "elements")
+
+
+def history_fact(chk, queries: Sequence[str] = ENCODER_QUERIES, rule: str = "history-independent", process: bool = False, actions: Sequence[str] = (), solver_change: bool = False) -> Optional[str]:
     """Every ordered pair of queries on one object answers as on a fresh copy; with process=True also: a solve that faulted
     for one object does not change what a later, healthy solve of an equal structure gives."""
     repo = chk.repo
@@ -1388,7 +1437,7 @@ def history_fact(chk, queries: Sequence[str] = ENCODER_QUERIES, rule: str = "his
         ents = entries_of(regs)
         rec.sequence = "".join(e.sequence for e in ents)
         pairs = {e.index_: e.pair for e in ents if e.pair}
-        recv = it.instance(CLS, attrs={"entries": ents, "pairs": pairs}, over={"__make_dot_bracket": rec.fill})
+        recv = bpseq(it, ents, {"__make_dot_bracket": rec.fill})
         return it, recv
 
     def ask(it, recv, q):
@@ -1401,6 +1450,7 @@ def history_fact(chk, queries: Sequence[str] = ENCODER_QUERIES, rule: str = "his
         return attempt(lambda: it.call(it.getattr_(recv, q, None), (), {}, None))
 
     usable = [q for q in queries if q.startswith("attr:") or f"{CLS}.{q}" in members]
+    only_first = [a for a in actions if f"{CLS}.{a}" in members and a not in usable]  # asked first, their own answers are another rule's
     dropped: List[str] = []
     problems: List[Tuple[str, str, Any, Any]] = []
     n = 0
@@ -1416,7 +1466,14 @@ def history_fact(chk, queries: Sequence[str] = ENCODER_QUERIES, rule: str = "his
                 except NotEvaluable as ex:
                     usable.remove(q)
                     dropped.append(f"{q} ({str(ex)[:60]})")
-            for q1, q2 in itertools.permutations(usable, 2):
+            for a in list(only_first):
+                try:
+                    it, r = fresh(regs, lp.World(_by_name_solution(opt)))
+                    ask(it, r, a)
+                except NotEvaluable as ex:
+                    only_first.remove(a)
+                    dropped.append(f"{a} ({str(ex)[:60]})")
+            for q1, q2 in list(itertools.permutations(usable, 2)) + [(a, q) for a in only_first for q in usable]:
                 if problems:
                     break
                 n += 1
@@ -1439,7 +1496,12 @@ def history_fact(chk, queries: Sequence[str] = ENCODER_QUERIES, rule: str = "his
                         except Exception:
                             continue
                         if _norm_result(r1._attrs[name]) != _norm_result(v0):
-                            state = f"; after `{q1}` the object's `{name}` is {_show_state(r1._attrs[name])}, on a fresh copy it is {_show_state(v0)}"
+                            a1, a0 = r1._attrs[name], v0
+                            if isinstance(a1, list) and isinstance(a0, list) and len(a1) == len(a0):
+                                k = next((i for i in range(len(a1)) if _norm_result(a1[i]) != _norm_result(a0[i])), 0)
+                                state = f"; after `{q1}` element {k} of the object's `{name}` is {_show_state(a1[k])}, on a fresh copy it is {_show_state(a0[k])}"
+                            else:
+                                state = f"; after `{q1}` the object's `{name}` is {_show_state(a1)}, on a fresh copy it is {_show_state(a0)}"
                             break
                     q1, q2 = q1.replace("attr:", ""), q2.replace("attr:", "")
                     problems.append((anchor.where, f"`{q2}` asked after `{q1}` on the same BpSeq object answers differently than on a fresh copy, for the stems {show(regs)} ({relation_text(regs)}){state}: an earlier query changes state a later one reads", want_q2, got))
@@ -1458,7 +1520,7 @@ def history_fact(chk, queries: Sequence[str] = ENCODER_QUERIES, rule: str = "his
                     rec_b = Recorder()
                     ents = entries_of(regs)
                     rec_b.sequence = "".join(e.sequence for e in ents)
-                    b = it.instance(CLS, attrs={"entries": ents, "pairs": {e.index_: e.pair for e in ents if e.pair}}, over={"__make_dot_bracket": rec_b.fill})
+                    b = bpseq(it, ents, {"__make_dot_bracket": rec_b.fill})
                     kind, val = attempt(lambda: it.call_member(b, "convert_to_dot_bracket", w.default_solver))
                     w2 = lp.World(_by_name_solution(opt))
                     it2, c = fresh(regs, w2)
@@ -1468,12 +1530,66 @@ def history_fact(chk, queries: Sequence[str] = ENCODER_QUERIES, rule: str = "his
                     if g1 != g2 and not problems:
                         conv = repo.func(MOD, f"{CLS}.convert_to_dot_bracket")
                         problems.append((conv.where, f"after {first_fault} for one object, a healthy solve of an equal structure (stems {show(regs)}) in the same process returns {val!r} instead of {val2!r}: the outcome of a faulted solve is remembered beyond the call", g2, g1))
+        if solver_change and not problems:
+            # the solver fails while the first answer is computed and works afterwards: what the object answers later must agree
+            # with what it has already handed out (= what it answers when the solver keeps failing), for every query that consults
+            # the optimal notation
+            regs = KNOTTED
+            dependants = [q for q in ("dot_bracket", "without_pseudoknots", "elements", "without_isolated") if q in usable or q in only_first]
+            for first_fault, fault in (("a solver raising PulpSolverError", _raising_outcome), ("solver status 'Not Solved'", _status_outcome(lp.LpStatusNotSolved))):
+                for q1 in ("dot_bracket",):
+                    if q1 not in dependants:
+                        continue
+                    for q2 in dependants:
+                        if problems:
+                            break
+                        n += 1
+                        w = lp.World(fault)
+                        it, r = fresh(regs, w)
+                        a1 = ask(it, r, q1)
+                        w.outcome = _by_name_solution(optimum(regs))
+                        k2, v2 = ask(it, r, q2)
+                        w0 = lp.World(fault)
+                        it0, r0 = fresh(regs, w0)
+                        ask(it0, r0, q1)
+                        k0, v0 = ask(it0, r0, q2)
+                        g2 = (k2, _norm_result(v2) if k2 == "value" else str(v2))
+                        g0 = (k0, _norm_result(v0) if k0 == "value" else str(v0))
+                        if g2 != g0:
+                            f2 = repo.func(MOD, f"{CLS}.{q2}")
+                            problems.append((f2.where, f"`{q1}` was answered while the solver failed ({first_fault}) - the FCFS notation was handed out - and `{q2}` asked afterwards on the same object, with the solver working again, answers {str(g2[1])[:160]} instead of {str(g0[1])[:160]}: a later answer of the object does not agree with the one it has already given (an answer is recomputed instead of kept), for the stems {regs}", g0, g2))
+        if process and not problems and f"{CLS}.convert_to_dot_bracket" in members:
+            # a healthy solve of structure B after a healthy solve of structure A in the same process: A and B have the same
+            # stem anchors (first 5' index, partner) and order type but other stem lengths, so that the optimum differs
+            conv = repo.func(MOD, f"{CLS}.convert_to_dot_bracket")
+            for arcs in (((0, 2), (1, 3)), ((0, 2), (1, 4), (3, 5)), ((0, 3), (1, 4), (2, 5))):
+                for la, lb in (([2, 5, 1], [5, 2, 4]), ([1, 1, 6], [6, 3, 1])):
+                    A, B = embed(arcs, scale=2, lengths=la[: len(arcs)]), embed(arcs, scale=2, lengths=lb[: len(arcs)])
+                    n += 1
+
+                    def solve(it, regs):
+                        rec = Recorder()
+                        ents = entries_of(regs)
+                        rec.sequence = "".join(e.sequence for e in ents)
+                        rec.regions = [tuple(r) for r in regs]
+                        obj = bpseq(it, ents, {"__make_dot_bracket": rec.fill})
+                        w = it.globals["pulp"].world
+                        w.outcome = _by_name_solution(optimum(regs))
+                        kind, val = attempt(lambda: it.call_member(obj, "convert_to_dot_bracket", w.default_solver))
+                        return (kind, rec.levels_of(val) if kind == "value" else str(val))
+
+                    it = Interp(repo, MOD, {"pulp": lp.Pulp(lp.World())})
+                    solve(it, A)
+                    after = solve(it, B)
+                    alone = solve(Interp(repo, MOD, {"pulp": lp.Pulp(lp.World())}), B)
+                    if after != alone and not problems:
+                        problems.append((conv.where, f"convert_to_dot_bracket for the stems {B} (start, partner, length) gives levels {after[1]} when the stems {A} - same anchors, other lengths - were converted earlier in the same process, but {alone[1]} in a fresh process: something kept between calls identifies a structure by less than what the assignment depends on (the objective reads the stem lengths)", alone[1], after[1]))
     except NotEvaluable as ex:
         return str(ex)
     for site, msg, want, got in problems[:1]:
         chk.violation(rule, site, msg, f"{MOD}:{CLS}:history", expected=want, found=got)
     if not problems:
-        chk.ok(rule, anchor.where, f"evaluated {n} histories (every ordered pair of {', '.join(usable)} on one object, {len(structures)} knotted structures" + (", a faulted solve followed by a healthy one" if process else "") + "): each answer equals the answer of a fresh copy" + (f"; not evaluable and left out: {dropped}" if dropped else ""))
+        chk.ok(rule, anchor.where, f"evaluated {n} histories (every ordered pair of {', '.join(usable)}" + (f", each also after {', '.join(only_first)}" if only_first else "") + f" on one object, {len(structures)} knotted structures" + (", a faulted solve followed by a healthy one, a solve after a solve of a structure with the same stem anchors and other lengths" if process else "") + "): each answer equals the answer of a fresh copy" + (f"; not evaluable and left out: {dropped}" if dropped else ""))
     return None
 
 
@@ -1718,6 +1834,7 @@ def model_fact(chk) -> Optional[str]:
         # the fault paths belong to the function too (their verdicts are C13's; here they only have to be reached)
         run(KNOTTED, None, outcome=_raising_outcome)
         run(KNOTTED, None, outcome=_status_outcome(lp.LpStatusNotSolved))
+        run(KNOTTED, None, outcome=_status_outcome(lp.LpStatusInfeasible))
         run(KNOTTED, None, none_solver=True)
     except NotEvaluable as ex:
         return str(ex)
@@ -1753,7 +1870,7 @@ def regions_fact(chk) -> Optional[str]:
     try:
         for regs in cases:
             ents = entries_of(regs)
-            recv = it.instance(CLS, attrs={"entries": ents}, over={"__stems_entries": stems_of(regs, ents)})
+            recv = bpseq(it, ents, {"__stems_entries": stems_of(regs, ents)})
             kind, val = attempt(lambda: it.call_member(recv, "__regions"))
             want = [tuple(r) for r in regs]
             if kind != "value":
@@ -1844,7 +1961,7 @@ def fill_fact(chk) -> Optional[str]:
     cases.append(([(2, 34, 1), (10, 15, 3)], {1: 1, 0: 0}))
     try:
         for regs, levels in cases:
-            recv = it.instance(CLS, attrs={"entries": [E(i + 1, c, 0) for i, c in enumerate(seq)]}, over={"sequence": seq})
+            recv = bpseq(it, [E(i + 1, c, 0) for i, c in enumerate(seq)], {"sequence": seq})
             lv = [levels[i] for i in range(len(regs))]
             kind, val = attempt(lambda: it.call_member(recv, "__make_dot_bracket", list(regs), levels if isinstance(levels, dict) else list(levels)))
             want = render(length, regs, lv)
@@ -1994,7 +2111,7 @@ def text_forms_fact(chk) -> Optional[str]:
                 problems.setdefault("parse", ("bpseq-text", fs.where, f"BpSeq.from_string({text!r}) gives {got if kind == 'value' else str(val)}, not one Entry(int(index), letter, int(pair)) per three-field line in order", want, got))
         # __str__ and sequence
         ents = [E(1, "A", 3), E(2, "c", 0), E(3, "U", 1), E(14, "n", 0)]
-        recv = it.instance(CLS, attrs={"entries": ents})
+        recv = bpseq(it, ents)
         kind, val = attempt(lambda: it.call_member(recv, "__str__"))
         if kind != "value" or val != "1 A 3\n2 c 0\n3 U 1\n14 n 0":
             problems.setdefault("str", ("bpseq-text", st.where, f"str(bpseq) is {val!r}, not `index letter pair` per entry joined by newlines", "1 A 3\n2 c 0\n3 U 1\n14 n 0", val if kind == "value" else str(val)))
@@ -2018,6 +2135,26 @@ def text_forms_fact(chk) -> Optional[str]:
             ok = strands == [(1, 4, "ACGu", "([.)"), (5, 8, "GG-n", ".]AA"), (9, 10, "UU", "aa")]
         if not ok:
             problems.setdefault("multi", ("multistrand-text", ms.where, f"MultiStrandDotBracket.from_string does not number the strands consecutively and concatenate them in order: {val!r}"[:400], None, None))
+        # classes of a line: what it starts with.  A structure line may start with any of the 61 structure characters - '>' (the
+        # closing bracket of the 4th type) included -, a header starts with '>' too; with and without header lines
+        for c in "." + REF_OPEN + REF_CLOSE:
+            for headers in (True, False):
+                # two strands, the second one's structure line starts with c; every bracket type balanced over the whole text
+                if c == ".":
+                    t1, t2 = "(..)", ".(.)"
+                elif c in REF_OPEN:
+                    t1, t2 = "(..)", c + "." + REF_CLOSE[REF_OPEN.index(c)] + "."
+                else:
+                    t1, t2 = "(" + REF_OPEN[REF_CLOSE.index(c)] + ").", c + "(.)"
+                s1, s2 = "ACGU", "GGCC"
+                text = (">strand_A\n" if headers else "") + f"{s1}\n{t1}\n" + (">strand_B\n" if headers else "") + f"{s2}\n{t2}\n"
+                kind, val = attempt(lambda: it.call_member(it.instance("MultiStrandDotBracket"), "from_string", text))
+                got = None
+                if kind == "value" and isinstance(val, Instance):
+                    got = (val._attrs.get("sequence"), val._attrs.get("structure"), [(x._attrs.get("first"), x._attrs.get("last"), x._attrs.get("structure")) for x in val._attrs.get("strands", [])])
+                want = (s1 + s2, t1 + t2, [(1, 4, t1), (5, 8, t2)])
+                if got != want:
+                    problems.setdefault("multi-first-char", ("multistrand-text", ms.where, f"MultiStrandDotBracket.from_string loses or mis-pairs lines when a strand's structure line starts with `{c}` ({'with' if headers else 'without'} `>` header lines): {text!r} is read as {got if kind == 'value' else str(val)}", want, got))
     except NotEvaluable as ex:
         return str(ex)
     if not problems:
@@ -2031,4 +2168,65 @@ def text_forms_fact(chk) -> Optional[str]:
         chk.ok("bpseq-sequence", sq.where, "evaluated: sequence = the entries' letters in order")
         chk.ok("dotbracket-length", ds.where, "evaluated: a notation whose length differs from the sequence is refused")
         chk.ok("multistrand-text", ms.where, "evaluated: strands are numbered consecutively (first = previous last + 1) and concatenated in order")
+    return None
+
+
+# ---------------------------------------------------------------------------------------------------------------------
+# the list as it is printed (tertiary.Mapping2D3D.all_dot_brackets)
+
+
+def mapping_list_fact(chk) -> Optional[str]:
+    """Mapping2D3D.all_dot_brackets on 1..4 strands of different lengths: one text per member of BpSeq.all_dot_brackets, in
+    its order; strand i gets `>strand_<chain>`, its sequence and its own consecutive slice of the member's notation."""
+    repo = chk.repo
+    T3, MC = "tertiary", "Mapping2D3D"
+    if not repo.has_func(T3, f"{MC}.all_dot_brackets"):
+        return f"{MC}.all_dot_brackets not found"
+    fi = repo.func(T3, f"{MC}.all_dot_brackets")
+    chk.note_function(fi)
+    it = Interp(repo, T3)
+    problem = None
+    lengths = [3, 5, 2, 4]
+    n = 0
+    try:
+        for k in range(1, 5):
+            strands = [("ABCD"[i], "ACGUACGU"[: lengths[i]]) for i in range(k)]
+            total = sum(len(s) for _, s in strands)
+            marks = "abcdefghijklmnopqrstuvwxyz"[:total]
+            members = [_NS(sequence="".join(s for _, s in strands), structure=m) for m in (marks, marks.upper()[::-1])]
+            recv = it.instance(MC, attrs={}, over={"bpseq": _NS(all_dot_brackets=list(members), dot_bracket=members[0]), "strands_sequences": list(strands)}, module=T3)
+            kind, val = attempt(lambda: it.call_member(recv, "all_dot_brackets"))
+            n += 1
+
+            def text_of(structure: str) -> str:
+                out, i = [], 0
+                for chain, seq in strands:
+                    out += [f">strand_{chain}", seq, structure[i : i + len(seq)]]
+                    i += len(seq)
+                return "\n".join(out)
+
+            want = [text_of(m.structure) for m in members]
+            if kind != "value":
+                problem = problem or (site_of(fi, getattr(val, "lineno", None)), f"{MC}.all_dot_brackets {'raises ' + str(val) if kind == 'raise' else 'does not finish'} for {k} strand(s) of lengths {lengths[:k]}", want, None)
+            elif val != want and problem is None:
+                got = list(val) if isinstance(val, (list, tuple)) else repr(val)
+                why = ""
+                if isinstance(val, list) and len(val) == len(want):
+                    rows_g, rows_w = val[0].split("\n"), want[0].split("\n")
+                    bad = next((i for i in range(min(len(rows_g), len(rows_w))) if rows_g[i] != rows_w[i]), None)
+                    if bad is not None and bad % 3 == 2:
+                        why = f": strand {bad // 3 + 1} of {k} is given `{rows_g[bad]}` instead of its own slice `{rows_w[bad]}` of the notation (slices must be consecutive: each starts where the previous one ended)"
+                problem = (fi.where, f"{MC}.all_dot_brackets for {k} strand(s) of lengths {lengths[:k]} is not one text per member of BpSeq.all_dot_brackets with every strand's own slice{why}", want, got)
+    except NotEvaluable as ex:
+        return str(ex)
+    if not problem:
+        ref = getattr(repo, "reference", {}).get(T3)
+        for f in [fi] + [g for q, g in repo.module(T3).funcs.items() if q.startswith(MC + ".") and id(g.node) in it.cov and g is not fi and ref is not None and q not in ref.funcs]:
+            gaps = coverage_gaps(it.cov, f.node)
+            if gaps:
+                return f"the input classes do not reach all of {f.qualname}: " + "; ".join(gaps)
+    if problem:
+        chk.violation("mapping-list-fact", problem[0], problem[1], f"{T3}:{MC}.all_dot_brackets:text", expected=problem[2], found=problem[3])
+    else:
+        chk.ok("mapping-list-fact", fi.where, f"evaluated on {n} strand sets (1..4 strands of lengths {lengths}, two members): one text per member of BpSeq.all_dot_brackets in its order, strand i with its own consecutive slice")
     return None
